@@ -47,6 +47,7 @@ class C18(Check):
         ls = [("L0-opcode-names", ops), ("L0b-stale-outputs-of-an-earlier-revision", stale),
               ("L1-strings<=2-all-positions", list(strings(0, 2, POSITIONS))),
               ("L2-examples", ex),
+              ("L2b-programs-of-the-repository-test-suite", [("test", t[0]) for t in corpus.test_projects() if len(t[1]) == 1]),
               ("L3-generated-corpus", [("gen", nm) for nm in gencorpus.names(tier) if not nm.startswith("c11")]),
               ("L4-strings=3-print", strings(3, 3, ["print"]))]
         if n >= 4:
@@ -154,6 +155,11 @@ class C18(Check):
             cwd, entry = corpus.stage(d, case[1], case[2])
             files = {}
             desc = {"example": case[2]}
+        elif case[0] == "test":
+            _, files, entry, _exp = next(t for t in corpus.test_projects() if t[0] == case[1])
+            driver.write_files(d, files)
+            cwd = d
+            desc = {"test": case[1]}
         else:
             from ..lang import gencorpus
             files = gencorpus.get(case[1])
@@ -163,6 +169,7 @@ class C18(Check):
             driver.write_files(d, files)
             cwd = d
             desc = {"generated": case[1]}
+        loose = case[0] in ("ex", "test") and paths.iterates_a_map(cwd)
         d1 = os.path.join(d, "dump-run.txt")
         d2 = os.path.join(d, "dump-tr.txt")
         r1 = driver.run(["run", entry, "-q"], cwd, env={"MSCRIPT_VERIF_DUMP": d1}, timeout=(8 if os.environ.get("VERIF_TIER_","quick")=="quick" else 30))
@@ -188,7 +195,7 @@ class C18(Check):
                 sg["pos"] = desc["position"]
                 sg["chars"] = "".join(sorted({("b" if ch == "\\" else "q" if ch == '"' else "s" if ch == " " else "w" if ch in "\t\n\r" else "x") for ch in s_}))
             else:
-                sg["name"] = desc.get("example") or desc.get("generated")
+                sg["name"] = desc.get("example") or desc.get("generated") or desc.get("test")
             sg.update(sig)
             viol.append({"sig": sg, "what": what, "detail": detail})
 
@@ -203,7 +210,7 @@ class C18(Check):
                 bad("exec-crash", f"execute of transpiled file ended with {r2.cls}, run with {r1.cls}: {r2.err[-300:]}")
             elif (r1.exit == 0) != (r2.exit == 0):
                 bad("status", f"run exit {r1.exit} vs pipeline exit {r2.exit}: {r2.err[-300:]}")
-            elif paths.canon_stdout(r1.out) != paths.canon_stdout(r2.out):
+            elif paths.canon_stdout(r1.out, loose) != paths.canon_stdout(r2.out, loose):
                 bad("stdout", f"stdout differs: run {r1.out[-200:]!r} vs pipeline {r2.out[-200:]!r}")
             dd = paths.diff_dumps(paths.read_dump(d1), paths.read_dump(d2))
             if dd:
